@@ -20,7 +20,7 @@ import vcheck
 CSS = os.path.join(vcheck.SPEC, "css")
 FAMS = ["esc", "quote", "print", "byte", "copy", "indent", "jsid", "jsnum", "cssid", "cssurl", "lenuint", "unitab"]
 # functions with a boolean result: the enumeration must expect both answers (else the table is vacuous)
-BOOLS = ["AsIdentifierName", "AsDecimalLiteral", "IsIdent", "IsURLUnquoted", "QuoteEntity"]
+BOOLS = ["AsIdentifierName", "AsDecimalLiteral", "IsIdent", "IsURLUnquoted", "QuoteEntity", "IsIdentifierStart", "IsIdentifierContinue", "IsIdentifierEnd"]
 
 
 def txt(a):
@@ -42,6 +42,8 @@ def sig_of(f):
         cls = new.get({"AsIdentifierName": "cls_id", "AsDecimalLiteral": "cls_num", "IsIdent": "cls_id", "IsURLUnquoted": "cls_url"}[name], "?")
         kind = "true-on-invalid" if ev.get("r") else "false-on-valid"
         return "helpers2/%s/%s:%s" % (name, kind, cls), ev
+    if name in ("IsIdentifierStart", "IsIdentifierContinue", "IsIdentifierEnd"):
+        return "helpers2/%s/%s" % (name, "true-on-other-character" if ev.get("r") else "false-on-identifier-character"), ev
     if name == "QuoteEntity":
         kind = "quote-not-recognised" if ev.get("q") == 0 else "wrong-quote-or-length"
         return "helpers2/QuoteEntity/%s:%s" % (kind, new.get("cls", "?")), ev
@@ -155,7 +157,7 @@ def run(ck, thorough):
     ck.cov["cases_replayed_against_impl"] = ck.cov.get("cases_replayed_against_impl", 0) + s["cases"]
     ck.cov["growth_helpers2"] = {
         "functions": ["parse.AppendEscape", "parse.QuoteEntity", "parse.Printable", "parse.IsWhitespace", "parse.IsNewline", "parse.Copy",
-                      "parse.NewIndenter/Indenter.Write/Indent", "js.AsIdentifierName", "js.AsDecimalLiteral", "css.IsIdent", "css.IsURLUnquoted",
+                      "parse.NewIndenter/Indenter.Write/Indent", "js.AsIdentifierName", "js.AsDecimalLiteral", "js.IsIdentifierStart", "js.IsIdentifierContinue", "js.IsIdentifierEnd", "css.IsIdent", "css.IsURLUnquoted",
                       "strconv.LenUint"],
         "cases": s["cases"], "calls": s["executions"], "open_cases": s["undetermined"], "expected_answers": s["expected"],
         "mismatch_kinds": s.get("mismatch_keys"), "recorded_traces": s2["traces"], "states": r.distinct,
